@@ -123,12 +123,6 @@ var invoiceTags = &tax.TagSet{
 				i18n.IT: "Beni ammortizzabili",
 			},
 		},
-		{
-			Key: tax.TagB2G,
-			Name: i18n.String{
-				i18n.EN: "Business to Government",
-			},
-		},
 	},
 }
 
